@@ -175,7 +175,7 @@ CHECKS = {
         "bounds": "one command of each kind (submit, cancel, release, force-release, results) x connection kind {unix, tcp, \"\", unixgram, mesh} x "
                   "verifying / non-verifying type x signature {absent, empty, token} x key {unset, set, unloadable} x token verdict {error, "
                   "not valid, valid} x audience {none, [A], [B], [B,A], [\"\"], [a]} - exhaustive over this finite shape (6300 paths)",
-        "no_native": ["Verif_C15_gate"],
+        "no_native": ["Verif_C15_gate", "Verif_C15_gate_sequence"],
         "assumptions": ["golang-jwt ParseWithClaims and certificates.LoadPublicKey replaced by verdict models (the JWT library's signature, expiry and "
                         "algorithm checks are trusted)"],
         "outside": ["the JWT library itself (signature verification, expiry evaluation, algorithm confusion)", "key file parsing",
